@@ -16,7 +16,7 @@ RULE = ("random cfg-free definitions over the documented language (all object ki
         "`cargo check` per batch with every diagnostic mapped to its definition; distinct = distinct feature vectors "
         "(object kinds, depth, refs, conversions, accesses, address types, stride signs)")
 
-KNOWN_CLASSES = ("D7", "D8", "D9", "D12", "D16", "D17")
+KNOWN_CLASSES = ("D7", "D8", "D9", "D12", "D16", "D17", "D20")
 
 
 def features(d):
@@ -46,9 +46,12 @@ def predicted_classes(d):
     cls = set()
     reg_unsigned = (cfg.get("register_address_type") or "u8").startswith("u")
     regs = {}
+    toplevel = {"Dev"}          # the driver struct and the block structs share the top-level namespace with generated enums
     for o, _ in adef.walk(d["objects"]):
         if o["kind"] == "register":
             regs[o["name"]] = o
+        if o["kind"] == "block":
+            toplevel.add(o["name"])
     for o, _ in adef.walk(d["objects"]):
         for _, fs in adef.field_sets(o):
             for fl in fs:
@@ -57,6 +60,8 @@ def predicted_classes(d):
                     cls.add("D7")
                 c = fl["conv"]
                 if c and c["type"] == "enum":
+                    if c["name"] in toplevel:
+                        cls.add("D20")
                     nums = []
                     nxt = 0
                     for v in c["variants"]:
@@ -137,6 +142,20 @@ def declared_vs_emitted(d, facts):
     return bad
 
 
+def rename_enum_like_toplevel(rng, d):
+    """D20: names_unique keeps objects and generated enums in separate namespaces, the emitted file does not: give one
+    inline enum the name of a block (or of the driver struct)."""
+    enums = []
+    tops = ["Dev"] + [o["name"] for o, _ in adef.walk(d["objects"]) if o["kind"] == "block"]
+    for o, _ in adef.walk(d["objects"]):
+        for _, fs in adef.field_sets(o):
+            for fl in fs:
+                if fl["conv"] and fl["conv"]["type"] == "enum":
+                    enums.append(fl["conv"])
+    if enums:
+        rng.choice(enums)["name"] = rng.choice(tops)
+
+
 def add_boundary_literal(rng, d):
     """An object whose address LITERAL sits exactly on / next to an integer-width boundary (every literal the emitter
     writes must be representable in the type of its position: internal address type, address type)."""
@@ -179,6 +198,8 @@ def run(ctx):
         d = gendev.gen_device(rng, prof)
         if rng.random() < 0.5:
             add_boundary_literal(rng, d)
+        if rng.random() < 0.06:
+            rename_enum_like_toplevel(rng, d)
         syntax = rng.choice(["dsl", "dsl", "json", "yaml", "toml"])
         if syntax != "dsl":
             # manifests cannot express u128 reset integers
@@ -255,9 +276,13 @@ def run(ctx):
         errs = per_mod.get(cid, [])
         kinds = {classify_error(e) for e in errs}
         hist["compile_" + ("ok" if not errs else "error")] += 1
+        if "D9" in kinds and "D9" not in pred and "D20" in pred:      # same rustc codes (E0428 ...): a duplicated top-level name
+            kinds = (kinds - {"D9"}) | {"D20"}
+            if "D20" in known:          # everything else in that module is a consequence of the name being defined twice
+                kinds = {k for k in kinds if not k.startswith("other:")}
         unexpected = [k for k in kinds if not (k in pred and k in known)]
         if unexpected:
-            e0 = [e for e in errs if classify_error(e) in unexpected][0]
+            e0 = ([e for e in errs if classify_error(e) in unexpected] or errs)[0]
             viol.append((c, "accepted definition does not type-check", {"error": e0.get("message"), "code": (e0.get("code") or {}).get("code"),
                                                                         "rendered": (e0.get("rendered") or "")[:1500]}))
         for k in kinds:
